@@ -267,6 +267,9 @@ def _run(ix, R):
     unique_names(ix, R, base)
     with R.guard('8.store', 'ARG', 'taurex/util/output.py::store_contributions', 'stored components'):
         stored_components(ix, R)
+    from rules.common import gas_lookup_path
+    with R.guard('2.mix.lookup', 'SIB', 'taurex/data/profiles/chemistry/', 'per-gas lookup'):
+        gas_lookup_path(ix, R, '2.mix.lookup')
     # ---- 7. every source that is added is kept
     site = 'taurex/model/model.py::ForwardModel.add_contribution'
     with R.guard('7.add', 'EFF', site, 'add_contribution'):
@@ -283,6 +286,18 @@ def _run(ix, R):
                 # only "not already in the list" may decide whether it is appended (anything else is rejected by a raise)
                 if not guard_is(fl, g, spec(fl, 'c in L', {'c': pe['c'], 'L': lst}), False):
                     why.append('appended only under %s' % g.text())
+        # a source is refused only for not being a Contribution or for being in the list already (the same object):
+        # any other reason - e.g. sharing its NAME with another source - drops a source the user added
+        for r_ in fl.of('raise'):
+            for g in r_.guards:
+                if g.rf is None:
+                    continue
+                if guard_is(fl, g, spec(fl, 'c in L', {'c': pe['c'], 'L': lst}), True) or \
+                        guard_is(fl, g, spec(fl, 'isinstance(c, Contribution)', pe), False):
+                    continue
+                if g.early:
+                    continue        # an earlier licensed refusal that did not fire
+                why.append('a contribution is refused when %s' % g.text()[:80])
         # nothing else changes the list: no element is replaced or removed, the list is not re-bound
         for e in fl.of('store'):
             ta = atom_of(fl, e.target)
